@@ -314,6 +314,18 @@ def _morph_post(ctx):
         why = "span end %r, expected %s (trailing gap preserved)" % (r["max"], M.fmt(F(s["max"]) + adj))
     if why is None and r["name"] != s["name"]:
         why = "name changed"
+    if why is None:
+        # a gap of nothing is a gap too, and the one gap rounding must not touch: intervals that met (end == next start) still meet -
+        # otherwise an unlabelled sliver of a few ulps stands between them (and is written out as an interval of its own when saved)
+        re_ = ents_of(r)
+        for i in range(len(ents) - 1):
+            if ents[i][1] == ents[i + 1][0]:
+                classes.append("C14:morph:touching-intervals")
+                if re_[i][1] != re_[i + 1][0]:
+                    why = "intervals %d and %d met at %r in the source; in the result one ends at %r and the next starts at %r (a gap of nothing is not preserved)" % (
+                        i, i + 1, ents[i][1], re_[i][1], re_[i + 1][0])
+                    mech = dict(mech, touching_lost=True)
+                    break
     if why:
         REC.violation(PROP, "morph", "morph", case, "%s; observed %r expected %r" % (why, r["entries"], M.fmt_entries(exp)), sig, mech)
     else:
@@ -484,6 +496,24 @@ def _workload(tier, rng, shard, nshards):
                 call(praatio_scripts.alignBoundariesAcrossTiers, tg, refname)  # the documented default is 0.005
             else:
                 call(praatio_scripts.alignBoundariesAcrossTiers, tg, refname, D)
+    # the first few hundredths of a second: a timestamp that lies closer to zero than to the reference timestamp it is moved to (the
+    # correction is larger than the value it corrects)
+    for k in range((400 if tier == "quick" else 8000) // nshards):
+        D = rng.choice([0.05, 0.05, 0.02, 0.1])
+        r1 = rng.choice([0.03, 0.04, 0.05, 0.07, 0.013, 0.09]) * (D / 0.05) * 0.9
+        r2 = r1 + rng.choice([1.0, 0.7, 2.3])
+        ref = make_tier("P", "ref", [(r1, "r"), (r2, "r")], 0.0, 6.0)
+        f = rng.choice([0.1, 0.25, 0.4, 0.05, 0.0])
+        t1 = r1 * f
+        kind = rng.choice("IP")
+        if kind == "I":
+            ents = [(t1, r2 + rng.choice([0.0, 0.3 * D, -0.3 * D, 2 * D]), "a")]
+        else:
+            ents = [(t1, "a"), (r2 - 0.4 * D, "b")]
+        t = make_tier(kind, "t", ents, 0.0, 8.0)
+        REC.cls("C14:dejitter:timestamp-nearer-to-zero-than-to-its-reference")
+        call(t.dejitter, ref, D)
+
     m = (5000 if tier == "quick" else 100000) // nshards
     for k in range(m):
         _, src = gen.rand_time_source(rng)
